@@ -159,6 +159,29 @@ def importChainL (w : PyW) : List Dotted → Bool × PyW
 def importChain (w : PyW) (p : Dotted) : Bool × PyW :=
   if (w.modOf p).isSome then (true, w) else importChainL w (prefixes p)
 
+/-- `from m import n [as c]` where `fullname = m.n` (at least two parts): what the name gets bound to -/
+def execFrom (w : PyW) (fullname : Dotted) : Option Obj × PyW :=
+  let m := fullname.dropLast
+  let n := fullname.getLast?.getD []
+  let r := importChain w m
+  if !r.1 then (none, r.2)
+  else
+    match r.2.modOf m with
+    | none => (none, r.2)
+    | some mo =>
+      match r.2.getattr mo n with
+      | some v => (some v, r.2)
+      | none =>
+        -- `_handle_fromlist` (packages only): import the submodule m.n unless it is in sys.modules;
+        -- "not found" is swallowed there and ends in IMPORT_FROM's ImportError, anything else propagates
+        let r2 := if r.2.isPkg mo && (r.2.modOf fullname).isNone then loadOne r.2 fullname else (true, r.2)
+        if !r2.1 then (none, r2.2)
+        else
+          -- IMPORT_FROM: getattr, falling back to sys.modules["m.n"]
+          match r2.2.getattr mo n with
+          | some v => (some v, r2.2)
+          | none => (r2.2.modOf fullname, r2.2)
+
 /-- executing `str(imp)` in a scratch namespace and reading `scratch[name0]` -/
 def execStmt (w : PyW) (imp : Import) : Option Obj × PyW :=
   if imp.fullname.isEmpty then (none, w)
@@ -171,29 +194,7 @@ def execStmt (w : PyW) (imp : Import) : Option Obj × PyW :=
     -- `import a as c`
     let r := importChain w imp.fullname
     if r.1 then (r.2.modOf imp.fullname, r.2) else (none, r.2)
-  else
-    -- `from m import n as c`
-    let m := imp.fullname.dropLast
-    let n := imp.fullname.getLast?.getD []
-    let r := importChain w m
-    if !r.1 then (none, r.2)
-    else
-      let w := r.2
-      match w.modOf m with
-      | none => (none, w)
-      | some mo =>
-        match w.getattr mo n with
-        | some v => (some v, w)
-        | none =>
-          -- `_handle_fromlist` (packages only): import the submodule m.n unless it is in sys.modules;
-          -- "not found" is swallowed there and ends in IMPORT_FROM's ImportError, anything else propagates
-          let r2 := if w.isPkg mo && (w.modOf imp.fullname).isNone then loadOne w imp.fullname else (true, w)
-          if !r2.1 then (none, r2.2)
-          else
-            -- IMPORT_FROM: getattr, falling back to sys.modules["m.n"]
-            match r2.2.getattr mo n with
-            | some v => (some v, r2.2)
-            | none => (r2.2.modOf imp.fullname, r2.2)
+  else execFrom w imp.fullname
 
 def exec (w : PyW) (imp : Import) : Option Obj × PyW :=
   execStmt (w.emit (.stmt imp)) imp
